@@ -94,6 +94,12 @@ def gen_params(g, name):
               "mean_up": g.choice([0.02, 0.1, 0.5]), "mean_down": g.choice([0.05, 0.2, 2.0]), "p_up": g.choice([0.5, 0.0, 1.0, 0.3])}
     elif name == "local_volatility":
         p |= {"init": g.choice([1.0, 2.0]), "a": g.choice([0.2, 0.0, 0.5, 3.0]), "b": g.choice([0.0, 0.1, -0.05]), "c": g.choice([0.0, 0.3])}
+        if p["a"] >= 3.0:
+            # 300 % volatility is there for steps with sigma*sqrt(dt) of order one; together with a volatility that GROWS with the
+            # price (b > 0: super-linear diffusion coefficient) the explicit Euler recursion S <- S + (a + b S) S dW squares the price
+            # at every step and leaves the float range within twenty steps for ANY implementation of the scheme - that is the user's
+            # sigma_fn overflowing, not a generator defect, so the two are not combined
+            p["b"] = min(p["b"], 0.0)
     else:
         p |= {"s0": g.choice([1.0, 2.0]), "v0": g.choice([0.04, 0.1]), "alpha": g.choice([-0.4, -0.2, -0.45, 0.1]), "rho": g.choice([-0.9, 0.0, 0.5]),
               "eta": g.choice([1.9, 0.5]), "n": max(2, n), "xi": g.choice([0.04, 0.2])}
